@@ -739,13 +739,18 @@ func (vr *voterecords) vote(
 		}
 	}
 
-	switch _, found, err := vr.getSuffrage(); {
+	switch suf, found, err := vr.getSuffrage(); {
 	case err != nil:
 		return false, false, errors.WithMessage(err, "vote")
 	case !found:
 		vr.ballots[node.String()] = signfact
 
 		return true, false, nil
+	case !suf.ExistsPublickey(node, signfact.Signer()):
+		// NOTE the suffrage can become known after Ballotbox.checkBallot
+		// looked for it; the signer is checked like the ballots, which waited
+		// for the suffrage.
+		return false, false, nil
 	default:
 		vr.voted[node.String()] = signfact
 
